@@ -144,7 +144,7 @@ theorem triEdgeClosest_optimal {E : Env K} (hE : E.Exact) (t0 t1 t2 c : V3 K)
     intro x hx
     have : pk.1 ≤ x.dist E c := by
       rcases hx with rfl | rfl | rfl
-      · exact hs.2 _ (by simp)
+      · exact hs.2 (c01.dist E c, c01) (by simp)
       · exact hs.2 (c12.dist E c, c12) (by simp)
       · exact hs.2 (c20.dist E c, c20) (by simp)
     rw [hkey] at this
